@@ -22,6 +22,7 @@ META = {
     "required_counters": ["silent_peer_runs", "responsive_peer_runs", "ping_periods_checked", "refused_settings_checked"],
     "assumptions": [],
 }
+META["claim"] += " " + 'Also: pings without a ping_timeout against silent and slow peers, keepalive on re-established connections and in a second run, seeded random interleavings of ping thread and loop for a promptly answering peer, and supervision through an external dispatcher.'
 
 RATIOS = [1.1, 1.5, 1.9, 2, 2.5, 3, 5, 10]
 TIMEOUTS = [0.5, 1, 2, 3]
